@@ -444,13 +444,12 @@ Definition opn_c (W : world) (dm : dom) (u : str) (i : io) : option doc * io :=
 
 Definition docs_of (W : world) : list (str * doc) := map (fun e => (fst e, snd (snd e))) (w_docs W).
 
-Definition universe (W : world) (i : io) : list (str * doc) := docs_of W ++ i_dcache i.
 
 (* DefinitionsReader.open: the object cache (policy 1) holds the WSDL object
    only after Definitions(url, options) has returned *)
 Definition client_load (W : world) (root : str) (ocache : bool) (i : io) : outcome unit * io * bool :=
   if N.eqb (w_policy W) 1 && ocache then (Ok tt, i, ocache)
-  else match load_root io (opn_c W) (universe W i) root i with
+  else match load_root io (opn_c W) (docs_of W) root i with
        | (Ok _, i') => (Ok tt, i', if N.eqb (w_policy W) 1 then true else ocache)
        | (Raised k, i') => (Raised k, i', ocache)
        | (OutOfFuel, i') => (OutOfFuel, i', ocache)
@@ -535,5 +534,8 @@ Definition all_absolute (W : world) : bool :=
 
 (* "nothing incomplete is cached": every cache entry is a well-formed
    document equal to what the source serves under that URL *)
+Definition served (W : world) (u : str) : option doc :=
+  if is_suds u && negb (held W u) then None else good (src W u).
+
 Definition cache_sound (W : world) (c : list (str * doc)) : Prop :=
-  forall u d, In (u, d) c -> d <> DBad /\ src W u = Some d.
+  forall u d, In (u, d) c -> served W u = Some d.
